@@ -21,7 +21,7 @@ func init() {
 				Rule: "inputs = for a corpus of valid encodings of every body type (boundary text lengths x argument shapes): every prefix, every single-octet corruption of every offset in the fixed part and length table " +
 					"(values 0,1,2,0x7f,0x80,0xff,orig+1,orig-1) and of sampled payload offsets, every (length octet raised, tail truncated) pair; plus every byte string of length <=4 over {0,1,0xff}, " +
 					"every fixed-part/length-octet combination over {0,1,2,255} with 0..3 trailing bytes; plus packets/headers with every lying length field. Every input is given to all nine decoders and to Request.Fields, " +
-					"three times: exact-capacity slice, and twice with 64 bytes of spare capacity filled with two different patterns (results must not depend on the spare bytes). " +
+					"three times into fresh values (exact-capacity slice, and twice with 64 bytes of spare capacity) and, when accepted, once more into a long-lived destination that earlier inputs were decoded into (same value required) filled with two different patterns (results must not depend on the spare bytes). " +
 					"distinct_nontrivial counts distinct (decoder, input) pairs where the input is not a valid encoding for that decoder",
 				Assumptions: []string{"allocation is measured with runtime.MemStats.TotalAlloc around single decodes in a worker that runs nothing else; bound 16*len(input)+16KiB"}}
 		},
@@ -34,6 +34,8 @@ func init() {
 type c04Case struct {
 	Decoder string `json:"decoder"`
 	Input   string `json:"input_hex"`
+	// Prev: the input the long-lived destination was decoded into before this one (decode-into-used cases)
+	Prev string `json:"previous_input,omitempty"`
 }
 
 var decoderNames = []string{"AuthenStart", "AuthenReply", "AuthenContinue", "AuthorRequest", "AuthorReply", "AcctRequest", "AcctReply", "Header", "Packet"}
@@ -210,6 +212,10 @@ func c04Inputs(c *Ctx, quick bool, emit func(in []byte)) {
 	}
 }
 
+// c04Used: per decoder, one long-lived destination every accepted input is decoded into as well.
+var c04Used = map[string]tq.EncoderDecoder{}
+var c04UsedIn = map[string]string{}
+
 type decodeOutcome struct {
 	panicked string
 	err      error
@@ -288,6 +294,26 @@ func c04One(c *Ctx, name string, in []byte, measure bool) {
 		return
 	}
 	c.R.Count("accepted", 1)
+	// the same bytes decoded into a destination that earlier decodes have used yield the same value: nothing the
+	// destination held before may survive into a value returned without error
+	if used := c04Used[name]; used != nil {
+		var uerr error
+		if p := safely(func() { uerr = used.UnmarshalBinary(append(make([]byte, 0, len(in)), in...)) }); p != "" {
+			fail("panic", "decoder panicked when decoding into a used destination: "+p)
+			return
+		}
+		if uerr != nil {
+			cs.Prev = c04UsedIn[name]
+			fail("used-destination", "input accepted by a fresh destination is refused by one that was decoded into before: "+uerr.Error())
+		} else if ru := render(name, used); ru != ro {
+			cs.Prev = c04UsedIn[name]
+			fail("fabricated", "decoded into a destination that was used before, the value differs from a fresh decode (bytes that are not in the input): "+trunc(ru, 300)+" vs "+trunc(ro, 300))
+		}
+	} else {
+		c04Used[name] = newDecoder(name)
+		c04Used[name].UnmarshalBinary(append(make([]byte, 0, len(in)), in...))
+	}
+	c04UsedIn[name] = cs.Input
 	// accepted: must satisfy the type's own validation and be made of input bytes
 	switch t := o.val.(type) {
 	case *tq.Header:
@@ -398,6 +424,12 @@ func c04Replay(c *Ctx, raw json.RawMessage) {
 	if len(cs.Decoder) > 6 && cs.Decoder[:6] == "Fields" {
 		c04Fields(c, in)
 		return
+	}
+	if cs.Prev != "" {
+		var prev []byte
+		fmt.Sscanf(cs.Prev, "%x", &prev)
+		c04Used[cs.Decoder] = newDecoder(cs.Decoder)
+		c04Used[cs.Decoder].UnmarshalBinary(prev)
 	}
 	c04One(c, cs.Decoder, in, true)
 }
